@@ -526,6 +526,62 @@ impl C15 {
 }
 
 impl C15 {
+    /// LI: D/n block-references K; K's text holds inline links (written correctly relative to K's
+    /// directory) to the notes `m` and `b/m`. "Inline section" on the reference puts K's text into
+    /// D/n: its links must then name, from D, the same two notes.
+    fn run_li(&self, key: &str, dir: &str, feats: &[String], fs: &mut Vec<Failure>, tr: &mut u64) -> String {
+        let n = note_in(dir);
+        let kd = oracle::dir_of(key);
+        let targets = ["m", "b/m"];
+        if targets.contains(&key) || n == key {
+            return "skip".into();
+        }
+        let u = crate::libspace::rel_url(dir, key);
+        let host = format!("# host\n\n[t]({})\n", u);
+        let inlined = format!("# target\n\nsee [one]({}) and [two]({}) here\n", crate::libspace::rel_url(&kd, "m"), crate::libspace::rel_url(&kd, "b/m"));
+        let lib: HashMap<String, String> = lib_of(&[(&n, host.as_str()), (key, inlined.as_str()), ("m", "# em\n"), ("b/m", "# bem\n")]);
+        let r = guarded(|| {
+            let s = server(&lib, "");
+            let acts = s.handle_code_action(&CodeActionParams {
+                text_document: TextDocumentIdentifier { uri: uri(&n) },
+                range: Range::new(Position::new(2, 0), Position::new(2, 0)),
+                context: Default::default(),
+                work_done_progress_params: Default::default(),
+                partial_result_params: Default::default(),
+            });
+            let mut out: Option<WorkspaceEdit> = None;
+            for a in acts {
+                if let CodeActionOrCommand::CodeAction(ca) = a {
+                    if ca.kind.as_ref().map(|k| k.as_str()) == Some("refactor.inline.reference.section") {
+                        out = s.handle_code_action_resolve(&ca).edit;
+                    }
+                }
+            }
+            out
+        });
+        *tr += 2;
+        match r {
+            Err(p) => {
+                fs.push(panic_failure(p, feats, "inline section"));
+                "panic".into()
+            }
+            Ok(None) => "not-offered".into(),
+            Ok(Some(edit)) => {
+                let mut lib2: std::collections::BTreeMap<String, String> = lib.iter().map(|(k, v)| (k.clone(), v.clone())).collect();
+                let _ = crate::edits::apply(&mut lib2, &edit);
+                let after = lib2.get(&n).cloned().unwrap_or_default();
+                let mut got: Vec<Option<String>> = oracle::scan_links(&after).into_iter().filter(|l| !oracle::is_external(&l.dest)).map(|l| names(dir, &l.dest)).collect();
+                got.sort();
+                let mut want: Vec<Option<String>> = targets.iter().map(|t| Some(t.to_string())).collect();
+                want.sort();
+                if got != want {
+                    fs.push(fail("LI", "inlined-links-name-other-notes", feats, format!("{:?} inlined into {:?}: its links named {:?}; in the host they are now {:?} (host text {:?})", key, n, want, got, after)));
+                }
+                "inlined".into()
+            }
+        }
+    }
+
     /// LR: K is renamed; the note D/n refers to it by a block reference and by an inline link
     /// (urls correctly relative to D). Every link re-written in D/n must name, from D, the key
     /// under which the note now exists.
@@ -606,7 +662,7 @@ impl Engine for C15 {
         "C15"
     }
     fn rule(&self) -> String {
-        "path shapes, exhaustively: every (note key K, linking directory D) over segments {a,b} up to the depth bound (D includes the root) — equal, nested either way, siblings, disjoint — and every link url of <= 4 segments over {a,b,.,..} with/without `.md`, `./` prefix, `.md.md`, from every D. Reference reader (shares no code with iwe): oracle::resolve (split on '/', `.`/`..`, strip one `.md`); a url names a note only if its last segment is a name (an empty url, `.md`, a trailing `.` or `..` name a directory). Laws without expected literals: L1 the url K.to_rel_link_url(D) names K for the reference reader and from_rel_link_url reads it back as K; L2 re-writing a read link from the same directory (to_rel(from_rel(u,D),D)) names the same note as u; L3 from_rel_link_url(u,D) == oracle::resolve(D,u); L2d formatting (Graph::import/export) a note D/n that consists of the block reference `[t](u)` keeps its target (own link scanner + reader) and indexes it as a block reference to that target; L4 a note D/n that block-references K with the url iwe writes (refs_extension \"\" and \".md\"; the reference under a heading, at the top, in a quote, in a list item, in an item of a quoted list, in a nested quote; as `[t](url)`, `[[url]]` and `[[url|t]]`) is a reference to K after import (get_block_references_to), its export names K, the re-import still references K, second export == first; LC the completion item offered in D/n for K inserts a link that names K and reads back as K; LX 'Extract section' in D/n leaves a reference that names the created note; LR after an LSP rename of K (new names `z` and `b/z`) the block reference and the inline link of D/n are re-written so that, from D, they name the key under which the note now exists. Don't-care: urls that climb above the root (all laws), urls that name the root or a directory (L2, L2d; L3 only the root). non-trivial = the case is outside the don't-care zone and a url/key produced by the real code was judged".into()
+        "path shapes, exhaustively: every (note key K, linking directory D) over segments {a,b} up to the depth bound (D includes the root) — equal, nested either way, siblings, disjoint — and every link url of <= 4 segments over {a,b,.,..} with/without `.md`, `./` prefix, `.md.md`, from every D. Reference reader (shares no code with iwe): oracle::resolve (split on '/', `.`/`..`, strip one `.md`); a url names a note only if its last segment is a name (an empty url, `.md`, a trailing `.` or `..` name a directory). Laws without expected literals: L1 the url K.to_rel_link_url(D) names K for the reference reader and from_rel_link_url reads it back as K; L2 re-writing a read link from the same directory (to_rel(from_rel(u,D),D)) names the same note as u; L3 from_rel_link_url(u,D) == oracle::resolve(D,u); L2d formatting (Graph::import/export) a note D/n that consists of the block reference `[t](u)` keeps its target (own link scanner + reader) and indexes it as a block reference to that target; L4 a note D/n that block-references K with the url iwe writes (refs_extension \"\" and \".md\"; the reference under a heading, at the top, in a quote, in a list item, in an item of a quoted list, in a nested quote; as `[t](url)`, `[[url]]` and `[[url|t]]`) is a reference to K after import (get_block_references_to), its export names K, the re-import still references K, second export == first; LC the completion item offered in D/n for K inserts a link that names K and reads back as K; LX 'Extract section' in D/n leaves a reference that names the created note; LI 'Inline section' of a reference to K in D/n: the inline links of K's text (to `m` and `b/m`) name the same notes from D afterwards; LR after an LSP rename of K (new names `z` and `b/z`) the block reference and the inline link of D/n are re-written so that, from D, they name the key under which the note now exists. Don't-care: urls that climb above the root (all laws), urls that name the root or a directory (L2, L2d; L3 only the root). non-trivial = the case is outside the don't-care zone and a url/key produced by the real code was judged".into()
     }
     fn bound(&self, tier: Tier) -> String {
         let d = depth(tier);
@@ -639,6 +695,7 @@ impl Engine for C15 {
             for d in &dirs {
                 // new name: plain (stays beside the old note or lands at the root, whichever way the
                 // server reads it) and in a directory of its own
+                emit(&format!("LI|key={}|dir={}", k, d));
                 emit(&format!("LR|key={}|dir={}|new=z", k, d));
                 emit(&format!("LR|key={}|dir={}|new=b/z", k, d));
             }
@@ -683,7 +740,7 @@ impl Engine for C15 {
     fn features(&self, case: &str) -> Vec<String> {
         let law = case.split('|').next().unwrap_or("");
         match law {
-            "L1" | "L4" | "LC" | "LR" => {
+            "L1" | "L4" | "LC" | "LR" | "LI" => {
                 let mut f = pair_features(field(case, "key"), field(case, "dir"));
                 if law == "L4" && !field(case, "ext").is_empty() {
                     f.push("refs-extension".into());
@@ -711,6 +768,7 @@ impl Engine for C15 {
             "L4" => (self.run_l4(field(case, "key"), dir, field(case, "ext"), opt_field(case, "host"), case, &feats, &mut fs, &mut tr), true),
             "LC" => (self.run_lc(field(case, "key"), dir, &feats, &mut fs, &mut tr), true),
             "LX" => (self.run_lx(dir, &feats, &mut fs, &mut tr), true),
+            "LI" => (self.run_li(field(case, "key"), dir, &feats, &mut fs, &mut tr), true),
             "LR" => (self.run_lr(field(case, "key"), dir, field(case, "new"), &feats, &mut fs, &mut tr), true),
             "L2" => self.run_l2(field(case, "url"), dir, &feats, &mut fs, &mut tr),
             "L3" => self.run_l3(field(case, "url"), dir, &feats, &mut fs, &mut tr),
